@@ -228,6 +228,20 @@ k_s = st.one_of(st.sampled_from([2, 3, 0.5, -1, -2.5, 7, 0.1, 10, -2, -3]), S.fl
 knum_s = st.sampled_from(["float"] * 5 + ["int", "np64", "npint"])
 
 
+@st.composite
+def _exact_multiple_mod(draw):
+    """A DMS / DDM angle that is an exact multiple (of either sign, or a signed zero) of the modulus: the remainder is 0."""
+    m = draw(st.sampled_from([360, 180, 90, 30, 7.5, 1, 0.5, 0.25]))
+    j = draw(st.integers(-6, 6))
+    v = float(j * m)
+    if abs(v) > 360:
+        v = math.copysign(float(m), v)
+    if v == 0.0 and draw(st.booleans()):
+        v = -0.0
+    return {"op": "mod", "a": {"op": "leaf", "cls": draw(st.sampled_from(["dms", "ddm"])), "v": v}, "m": m,
+            "knum": draw(knum_s)}
+
+
 def _extend(children):
     return st.one_of(
         st.builds(lambda l, r: {"op": "add", "l": l, "r": r}, children, children),
@@ -240,6 +254,7 @@ def _extend(children):
         st.builds(lambda a, m, n: {"op": "mod", "a": a, "m": m, "knum": n}, children,
                   st.one_of(st.sampled_from([360, 180, 90, 1, 360.0, -90, -360.0]), S.floats(0.1, 360.0)), knum_s),
         st.builds(lambda a, n: {"op": "round", "a": a, "n": n}, children, st.integers(0, 6)),
+        _exact_multiple_mod(),
     )
 
 
